@@ -16,6 +16,9 @@ JudgeC11 ==
   /\ (~r.accepted /\ r.written) => Say("rejected_but_written", {})
   /\ (r.accepted /\ ~r.graphok) => Say("graph_output_failed", {})
   /\ (r.accepted /\ r.codegen_panic) => Say("codegen_panic", {})
+  \* model drift (not an alarm): a grammar of the error-code family is not rejected with its code
+  /\ (r.expect # "" /\ ~(\E k \in DOMAIN r.codes : r.codes[k] = r.expect)) =>
+        PrintT("DRIFT|" \o ToJson([i |-> i, cause |-> {"expected_code_missing"}]))
   \* model drift (not an alarm): the scoping model predicts failure but rustc accepted
   /\ (r.accepted /\ r.compiled /\ r.hasg /\ ~ScopeOK(r.g)) => PrintT("DRIFT|" \o ToJson([i |-> i, cause |-> Predict(r.g)]))
 =============================================================================
